@@ -89,10 +89,13 @@ _FMETH = 'fract|abs|trunc|ceil|floor|round|is_nan|is_finite|is_infinite|is_sign_
 # operator is still extracted and then fails the contract instead of losing the anchor
 BUILTINS = {
     # comparison of an f64 place with a float literal:  *n != 0.0  ->  f64_ne(*n, 0.0)
-    'f64cmp': (r'(\*\w+|\b\w+(?:\.\w+\(\))?)\s*(!=|==|>=|<=|>|<)\s*(-?\d+\.\d+)\b',
+    'f64cmp': (r'(\*\w+|\b\w+(?:\.\w+)*(?:\.\w+\(\))?)\s*(!=|==|>=|<=|>|<)\s*(-?\d+\.\d+)\b',
                lambda m: 'm_cmp(%du8, %s, %s)' % (_CMPN[m.group(2)], m.group(1), m.group(3))),
     # f64 methods on a binding: n.fract() -> m_fract(n); (*n as i64) -> m_as_i64(*n)
-    'f64method': (r'\b(\w+)\.(%s)\(\)' % _FMETH, lambda m: 'm_%s(%s)' % (m.group(2), m.group(1))),
+    'f64method': (r'\b(\w+(?:\.\w+)*)\.(%s)\(\)' % _FMETH, lambda m: 'm_%s(%s)' % (m.group(2), m.group(1))),
+    # COND.then(|| X)  ->  (if COND { Some(X) } else { None })      (definition of bool::then)
+    'bool_then_some': (r'(?s)^\{\s*(.*?)\.then\(\|\| (.*)\)\s*\}$',
+                       lambda m: '{ if %s { Some(%s) } else { None } }' % (m.group(1).strip(), m.group(2).strip())),
     'f64cast': (r'(?<![\w>])\((\*\w+) as (usize|i64)\)|(\*\w+) as (usize|i64)',
                 lambda m: 'm_as_%s(%s)' % (m.group(2) or m.group(4), m.group(1) or m.group(3))),
     # self.symbols.iter()[.rev()].map(|table| table.lookup_X(name)).find(Self::stop_searching)
